@@ -232,6 +232,82 @@ func runCloseOnce(c *core.Ctx) {
 			}
 		}
 	}
+	// Stop's case analysis: the request is sent only while the archetype runs (requestExit != nil); awaitExit is closed by Stop
+	// only when it does not run (requestExit == nil) and no Stop came before (flag false), and on that path the flag is set
+	if stop := mustMethod(c, e, an.PkgDistsys, "MPCalContext", "Stop"); stop != nil {
+		info := stop.Pkg.Info
+		for _, b := range bodiesOf(stop) {
+			if b.lit == nil {
+				continue
+			}
+			g := graphOfBody(e, stop.Pkg, stop, b)
+			polar := func(a ast.Node, match func(ast.Expr) bool) (ok, whenTrue bool) {
+				ex, isE := a.(ast.Expr)
+				if !isE || !g.IsCondAtom(a) {
+					return false, false
+				}
+				neg := false
+				for {
+					ex = an.Unparen(ex)
+					u, isU := ex.(*ast.UnaryExpr)
+					if !isU || u.Op != token.NOT {
+						break
+					}
+					neg = !neg
+					ex = u.X
+				}
+				if be, isB := ex.(*ast.BinaryExpr); isB && (be.Op == token.NEQ || be.Op == token.EQL) && isNilIdent(info, be.Y) && match(be.X) {
+					return true, (be.Op == token.NEQ) != neg
+				}
+				if match(ex) {
+					return true, !neg
+				}
+				return false, false
+			}
+			isReq := func(x ast.Expr) bool { return an.SelectedField(info, x) == reqExit }
+			isFlag := func(x ast.Expr) bool { return an.SelectedField(info, x) == exitReq }
+			guarded := func(n ast.Node, match func(ast.Expr) bool, positive bool) bool {
+				for _, blk := range g.CFG.Blocks {
+					cd, _ := g.Cond(blk)
+					if cd == nil {
+						continue
+					}
+					if ok, whenTrue := polar(cd, match); ok && g.GuardedBy(n, cd, whenTrue == positive) {
+						return true
+					}
+				}
+				return false
+			}
+			for _, snd := range g.FindAtoms(func(a ast.Node) bool {
+				ss, ok := a.(*ast.SendStmt)
+				return ok && an.SelectedField(info, ss.Chan) == reqExit
+			}) {
+				c.Check(guarded(snd, isReq, true), "Stop:request-only-while-running", snd.Pos(), "the exit request is sent only if requestExit != nil",
+					"Stop sends on requestExit without knowing it is non-nil: before Run starts (or after it ended) the channel is nil and Stop blocks forever holding runStateLock")
+			}
+			for _, cl := range g.FindAtoms(func(a ast.Node) bool {
+				call, ok := a.(*ast.CallExpr)
+				return ok && an.IsBuiltin(info, call, "close") && len(call.Args) == 1 && an.SelectedField(info, call.Args[0]) == await
+			}) {
+				c.Check(guarded(cl, isReq, false), "Stop:close-only-when-not-running", cl.Pos(), "Stop closes awaitExit only on the requestExit == nil side",
+					"Stop can close awaitExit while the archetype is running: Stop returns although critical sections still commit, and Run's epilogue closes the channel a second time (panic)")
+				c.Check(guarded(cl, isFlag, false), "Stop:close-only-first-time", cl.Pos(), "only the first Stop (flag false) closes awaitExit",
+					"Stop closes awaitExit on the exitRequested == true side: the first Stop before Run would not release waiters and would itself wait forever")
+				set := g.FindAtoms(func(a ast.Node) bool {
+					rhs, isSet := fieldIsAssigned(info, a, exitReq)
+					return isSet && isBoolConst(info, rhs, true) && guarded(a, isReq, false)
+				})
+				okSet := false
+				for _, st := range set {
+					if g.Dominates(st, cl) {
+						okSet = true
+					}
+				}
+				c.Check(okSet, "Stop:not-running-sets-flag", cl.Pos(), "exitRequested is set before awaitExit is closed on the not-running path",
+					"a Stop before Run does not set exitRequested: a later Run would start although Stop already returned")
+			}
+		}
+	}
 	if closes < 2 {
 		c.Lost("close(awaitExit)", "expected two close sites (Stop case 2a, Run epilogue), found %d", closes)
 	}
